@@ -58,6 +58,10 @@ CLAIMED = {
             "Theorems C04_integrity/C04_payload/C04_frames/C04_unaltered_accepted hold for every configuration and every received byte sequence. The per-run check alters each transfer at every offset (substitution, deletion, insertion, checksum-compensating pairs), feeds it to a real slave session and the slave's answers to a real master: a delivered message must be byte-identical to the queued one and the sender may record it sent only if it was delivered; the receiver is compared with the model on the same bytes.",
             "That CRC-16 plus size detect a given corruption is a property of the code (probabilistic for compensating changes), checked per run; 'alterations an independent reference also accepts' are those that leave the payload bytes intact (e.g. in the title).",
             "DESIGN.md section 6 C04"),
+    "C05": ("Independent Gallina grammar of B2F (extracted as the live judge) + reference peer written from the protocol text driving real sessions; Coq proofs that what the model side writes is accepted by the grammar's readers",
+            "Theorems C05_prompt/C05_answer_line/C05_decimal_fields hold for all proposal lines, answer lists and numbers. PARTIAL: the whole-session statement C05_conforming_statement is a Prop decided per run: 150 (2000) sessions of a real Session against the reference peer under random conforming choices (block sizes 1..256, all answer alphabets, zero-offset accepts, comments and ;PM lines, MOTD, ;FW with hashes, SID feature strings, early FQ, duplicate MIDs), judged by the peer's own checks, by the extracted Grammar validator replaying both recorded streams (payloads decoded by the independent Canon LZHUF), and by the prescribed outcome. One known finding: answer H.",
+            "The reference peer is Go code in the harness (independent of package fbb, uses the library's lzhuf only to read payloads; the grammar uses Canon); the documents leave the sender's reaction to 'E' open: the peer does not send it.",
+            "DESIGN.md section 6 C05"),
 }
 
 NOT_YET = {}
